@@ -110,11 +110,24 @@ def cases(rng, tier):
         lo = 0 if np.dtype(dt).kind == "u" else -9
         vals = rng.choice([0, 1, 2, 3, 4, 5, 2.5, 0.75]) if scalar else [rng.randint(lo, 99) for _ in keys]
         ops = _history(rng, keys, absent, rng.randint(1, 8), lo, (int(np.iinfo(dt).min), int(np.iinfo(dt).max)))
+        vdt = rng.choice(["int64", "int64", "float64", "int32"])
+        if not scalar and rng.random() < 0.3:
+            if rng.random() < 0.5:
+                vdt = "float64"
+                if not any(o["t"] == "like_set" for o in ops):
+                    ops.insert(rng.randint(0, len(ops)), {"t": "like_set", "like": rng.choice(["zeros", "ones"]), "ks": [rng.choice(keys)], "x": 2})
+            # fractional values: kept by a float-valued table, truncated (as numpy's cast does) by an integer-valued one --
+            # consistently for every way of reading them back (vector lookup, single lookup, items, after a later assignment)
+            for o in ops:
+                if o["t"] in ("setscalar", "fill", "like_set") and rng.random() < 0.7:
+                    o["x"] = rng.choice([0.75, 2.5, 7.25, -1.5] if lo < 0 else [0.75, 2.5, 7.25])
+            ops.append({"t": "get1", "k": rng.choice(keys)})
+            ops.append({"t": "items"})
         if scalar and np.dtype(dt).itemsize == 1:
             # a table holding one shared value keeps its values in the KEY dtype: with 8-bit keys repeated += would leave it
             ops = [o for o in ops if o["t"] not in ("iadd_num", "iadd_table")] or [{"t": "items"}]
         out.append({"keys": keys, "kdtype": dt, "qdtype": qdt, "mod": mod, "vals": vals,
-                    "vdtype": rng.choice(["int64", "int64", "float64", "int32"]), "ops": ops})
+                    "vdtype": vdt, "ops": ops})
     return out
 
 
@@ -251,9 +264,16 @@ def oracle(p):
                  [float(v) if p["vdtype"] == "float64" else v for v in p["vals"]]))
     if not isinstance(p["vals"], list):
         d = {k: p["vals"] for k in p["keys"]}
+    def cast(x):
+        # what numpy's assignment into an array of the table's value dtype stores (a fraction is cut off for integer dtypes)
+        if isinstance(x, float) and isinstance(p["vals"], list):
+            return float(x) if p["vdtype"] == "float64" else int(np.array(x).astype(p["vdtype"]))
+        return x
     trace = []
     for o in p["ops"]:
         k = o["t"]
+        if "x" in o:
+            o = dict(o, x=cast(o["x"]))
         if k == "getvec":
             trace.append([d[q] for q in o["ks"]] if all(q in d for q in o["ks"]) else {"k": "refuse"})
         elif k == "get1":
@@ -318,8 +338,8 @@ def lean_request(p):
     # HashSet(keys).contains is the `contains` of a table over the same keys (its values play no role)
     if isinstance(p["vals"], float):
         return None          # a non-integral shared value: the model's values are integers
-    if p["vdtype"] == "float64" and any(o["t"] == "iadd_table" and not o["scalar"] for o in p["ops"]) and isinstance(p["vals"], list):
-        pass                 # float per-key values hold integers here: fine for the integer model
+    if any(isinstance(o.get("x"), float) for o in p["ops"]):
+        return None          # fractional values: the model's values are integers
     ops = [dict(o, t="contains") if o["t"] == "hs_contains" else o for o in p["ops"]]
     ops = [dict(o, scalar=bool(o["scalar"] or not isinstance(p["vals"], list))) if o["t"] == "iadd_table" else o for o in ops]
     return {"op": "HT.runx", "keys": p["keys"], "vals": p["vals"], "mod": p["mod"], "ops": ops}
